@@ -9,3 +9,5 @@ def check(ctx: Ctx) -> None:
     CT.r_annotation_kinds(ctx, "R16.3")
     # help and usage texts reach the client only if the parser (and every sub-parser) keeps writing into the buffer the session reads
     CT.r_buffer(ctx, "R16.4")
+    # a command that is listed but cannot be executed (its arguments filed under names the session does not look up) is not available
+    CT.r_executable(ctx, "R16.5")
